@@ -225,8 +225,14 @@ def sync(g, job, level):
         expected = it.clock.time
         before = it.time
         g.prove(Eq(sy.time, before), 'sync_unchanged_between_steps', {'k': k})
-        if g.choice('q%d' % k, 2):
+        q = g.choice('q%d' % k, 3)
+        if q == 1:
             it.queue('e')
+        elif q == 2:
+            from sismic.model import Event
+            it.queue(Event('e', delay=g.real('qd%d' % k, 0)))
+        g.prove_all([('sync_unchanged_by_queue', Eq(sy.time, before), {'k': k, 'q': q}),
+                     ('interpreter_time_unchanged_by_queue', Eq(it.time, before), {'k': k, 'q': q})])
         step = it.execute_once()
         conds = [('sync_equals_interpreter_time', Eq(sy.time, it.time), {'k': k}),
                  ('interpreter_time_is_sampled_clock', Eq(it.time, expected), {'k': k})]
